@@ -268,3 +268,55 @@ def relations(rng, tier, rpt):
         pass
     rpt.extra["impl_relation_checks"] = n
     return bad[:8]
+
+
+def search_broken(broken, rng):
+    """a word-list table theorem failed (a Monero or Electrum-v1 list no longer equals the registered one, has a duplicate, or lost
+    the unique-prefix property): exhibit an entropy whose phrase is not the registered one, or which no longer decodes to itself."""
+    import os
+    from harness.core import VERIF
+
+    def ref_words(gold, ent):
+        n = len(gold)
+        out = []
+        for i in range(0, len(ent), 4):
+            x = int.from_bytes(ent[i:i + 4], "little")
+            w1 = x % n
+            w2 = (x // n + w1) % n
+            w3 = (x // n // n + w2) % n
+            out += [gold[w1], gold[w2], gold[w3]]
+        return out
+    for lang in MONERO_LANGS:
+        gold = [w for w in open(os.path.join(VERIF, "golden", "monero", lang + ".txt"), encoding="utf-8").read().split("\n") if w]
+        try:
+            cur = mon_words(lang)
+        except Exception as ex:  # noqa
+            return {"relation": "Monero word list %s cannot be loaded: %s" % (lang, ex), "impl_output": type(ex).__name__, "model_output": "%d words" % len(gold)}
+        suspects = [i for i, (a, b) in enumerate(zip(cur, gold)) if a != b]
+        seen = {}
+        for i, w in enumerate(cur):
+            if w in seen:
+                suspects += [seen[w], i]
+            seen[w] = i
+        for i in suspects:
+            for k in range(3):
+                chunk = ((i + (rng.randrange(len(gold)) if k else 0) * len(gold)) % 2**32).to_bytes(4, "little")      # first word of the chunk has index i
+                ent = chunk * 4
+                enc, dec = MoneroMnemonicEncoder(MoneroLanguages[lang]), MoneroMnemonicDecoder(MoneroLanguages[lang])
+                try:
+                    got = enc.EncodeNoChecksum(ent).ToList()
+                    back = dec.Decode(" ".join(got)).hex()
+                except Exception as ex:  # noqa
+                    got, back = [type(ex).__name__], type(ex).__name__
+                want = ref_words(gold, ent)
+                if got != want:
+                    return {"relation": "word %d of the Monero %s list differs from the registered list: the phrase of an entropy is not the registered one" % (i, lang),
+                            "entry_point": "MoneroMnemonicEncoder(%s).EncodeNoChecksum" % lang, "input": ent.hex(), "impl_output": " ".join(got), "model_output": " ".join(want),
+                            "request_lines": ["monenc %s %s 0" % (lang, hx(ent))]}
+                if back != ent.hex():
+                    return {"relation": "Monero %s list: decode(encode(entropy)) is not the entropy (word %d is ambiguous)" % (lang, i),
+                            "entry_point": "MoneroMnemonicDecoder(%s).Decode" % lang, "input": ent.hex(), "impl_output": back, "model_output": ent.hex(),
+                            "request_lines": ["mondec %s %s" % (lang, tx(" ".join(got)))]}
+        if len(cur) != len(gold):
+            return {"relation": "Monero word list %s has %d entries" % (lang, len(cur)), "impl_output": str(len(cur)), "model_output": str(len(gold))}
+    return None
